@@ -380,6 +380,7 @@ impl Harness {
             Op::Restart(kind) => self.op_restart(*kind, false).await,
             Op::RestartLosingIndexes(kind) => self.op_restart(*kind, true).await,
             Op::Audit => self.audit().await,
+            Op::RestartKeyMismatch { off } => self.op_restart_key_mismatch(*off).await,
             Op::UnauthProbe { which } => crate::harness_wire::unauth_probe(self, *which).await,
             Op::Garbage { seed } => crate::harness_wire::garbage(self, *seed).await,
             Op::Connect { c } => {
@@ -1161,6 +1162,89 @@ impl Harness {
             let after = crate::snapshot::take(self).await;
             crate::snapshot::compare(self, &before, &after, &tree_before);
         }
+    }
+
+    /// C19: data written under one key is never returned as valid content under another key.
+    async fn op_restart_key_mismatch(&mut self, off: bool) {
+        if !self.world.is_up() || !self.world.knobs.borrow().encryption {
+            return;
+        }
+        self.stats.restarts += 1;
+        let before = crate::snapshot::take(self).await;
+        for c in 0..self.clients.len() {
+            self.clients[c] = None;
+            self.model.sessions[c] = MSession::default();
+        }
+        self.sim.settle().await;
+        let _ = self.world.stop(StopKind::GracefulDrained).await;
+        let right_key = self.world.knobs.borrow().encryption_key.clone();
+        {
+            use base64::Engine;
+            let mut knobs = self.world.knobs.borrow_mut();
+            if off {
+                knobs.encryption = false;
+            } else {
+                let other: Vec<u8> = (0..32u8).map(|i| i.wrapping_mul(7).wrapping_add(self.op_index as u8)).collect();
+                knobs.encryption_key = base64::engine::general_purpose::STANDARD.encode(other);
+            }
+        }
+        let started = self.world.start().await;
+        for p in self.sim.take_panics() {
+            let tag = panic_tag(&p);
+            self.violate("C19", "key_mismatch_never_panics", format!("{tag}:{}", if off { "encryption_off" } else { "other_key" }), format!("start-up with {} panicked: {}", if off { "encryption switched off" } else { "another key" }, p.chars().take(160).collect::<String>()));
+        }
+        match started {
+            Err(_) => self.stats.probe("key_mismatch_rejected_at_start"),
+            Ok(()) => {
+                self.stats.probe("key_mismatch_server_started");
+                // whatever it serves, it must not be the content written under the right key
+                if let Ok(client) = self.world.root_client().await {
+                    let targets: Vec<(u32, u32, u32)> = self.model.streams.values().flat_map(|s| s.topics.values().flat_map(move |t| t.partitions.keys().map(move |p| (s.id, t.id, *p)))).collect();
+                    for (sid, tid, p) in targets {
+                        let polled = client.poll_messages(&IdRef::Num(sid).to_identifier(), &IdRef::Num(tid).to_identifier(), Some(p), &Consumer::default(), &PollingStrategy::offset(0), 1000, false).await;
+                        match polled {
+                            Ok(polled) if !polled.messages.is_empty() && !off => {
+                                let clear = polled.messages.iter().filter(|m| m.payload.windows(10).any(|w| w == b"<<PAYLOAD:")).count();
+                                self.violate("C19", "other_key_returns_no_content", if clear > 0 { "clear_content_under_other_key" } else { "undecryptable_record_delivered" }, format!("with another key partition {sid}/{tid}/{p} delivered {} messages ({clear} with the original content)", polled.messages.len()));
+                            }
+                            Ok(_) => {}
+                            Err(_) => self.stats.probe("undecryptable_record_reported"),
+                        }
+                    }
+                }
+                for p in self.sim.take_panics() {
+                    let tag = panic_tag(&p);
+                    self.violate("C19", "key_mismatch_never_panics", format!("{tag}:poll"), format!("poll under a mismatching key panicked: {}", p.chars().take(160).collect::<String>()));
+                }
+                let _ = self.world.stop(StopKind::Kill).await;
+            }
+        }
+        {
+            let mut knobs = self.world.knobs.borrow_mut();
+            knobs.encryption = true;
+            knobs.encryption_key = right_key;
+        }
+        let tree_before = crate::snapshot::dir_tree(&self.world.data_path());
+        if let Err(e) = self.world.start().await {
+            self.violate("C19", "same_key_restores_everything", format!("init_error:{}", e.as_string()), format!("after a start attempt with a mismatching key, the right key no longer starts the server: {e:?}"));
+            self.fatal = true;
+            return;
+        }
+        self.sim.settle().await;
+        for s in self.model.streams.values_mut() {
+            for t in s.topics.values_mut() {
+                t.balanced_history.clear();
+                for g in t.groups.values_mut() {
+                    g.members.clear();
+                }
+            }
+        }
+        if self.connect_client(0, true).await.is_err() {
+            self.fatal = true;
+            return;
+        }
+        let after = crate::snapshot::take(self).await;
+        crate::snapshot::compare(self, &before, &after, &tree_before);
     }
 
     async fn flush_everything(&mut self) {
